@@ -93,8 +93,8 @@ func init() {
 	ps := &PropSpec{
 		ID: "C20", Level: "fault_enumeration",
 		Verdict: []string{"health."},
-		Rule: "for sampled healthy ledgers (mixed histories, after a commit): (i) a fresh storage with every slab loaded must pass CheckStorageHealth with the model's root count and return exactly the model's root set, and GetAllChildReferences of every root must return exactly the reference set the independent parser reaches, no broken ones; (ii) enumerated for EVERY slab of the ledger: delete a referenced register; add an unreferenced register (re-addressed copy) beyond the expected root count; make a second parent reference an already-referenced slab (index-slab child header patched; element-level through a harness value that stores a raw slab reference, so the library writes a well-formed register); re-address an element-referenced slab to another owner - each at the register level (fresh storage, everything loaded) and, for deletion and double reference, through the storage API on the live storage before and after a commit; the health check must fail for every one, and the reference query must list a deleted slab as broken and the rest as the parser sees it. Non-trivial = a ledger with >= 4 slabs incl. an element-level reference; distinct by trace hash",
-		ExpectedReach: []string{"health.positive", "health.corruption.delete-ref.register", "health.corruption.delete-ref.api", "health.corruption.delete-ref.api-committed", "health.corruption.orphan.register", "health.corruption.double-ref.meta.register", "health.corruption.double-ref.elem.api", "health.corruption.cross-owner.register", "health.refs-checked"},
+		Rule: "for sampled healthy ledgers (mixed histories, after a commit): (i) a fresh storage with every slab loaded must pass CheckStorageHealth with the model's root count and return exactly the model's root set, and GetAllChildReferences of every root must return exactly the reference set the independent parser reaches, no broken ones; (ii) enumerated for EVERY slab of the ledger: delete a referenced register; add an unreferenced register (re-addressed copy) beyond the expected root count; make a second parent reference an already-referenced slab (index-slab child header patched; element-level through a harness value that stores a raw slab reference, so the library writes a well-formed register); re-address an element-referenced slab to another owner; a second reference placed in the very container (same parent slab) that already holds the first; histories that dispose of every container (zero expected roots) plus one added register - each at the register level (fresh storage, everything loaded) and, for deletion and double reference, through the storage API on the live storage before and after a commit; the health check must fail for every one, and the reference query must list a deleted slab as broken and the rest as the parser sees it. Non-trivial = a ledger with >= 4 slabs incl. an element-level reference; distinct by trace hash",
+		ExpectedReach: []string{"health.positive", "health.corruption.delete-ref.register", "health.corruption.delete-ref.api", "health.corruption.delete-ref.api-committed", "health.corruption.orphan.register", "health.corruption.double-ref.meta.register", "health.corruption.double-ref.elem.api", "health.corruption.cross-owner.register", "health.refs-checked", "health.corruption.orphan.empty.register", "health.corruption.double-ref.same-parent.api"},
 	}
 	type aux struct {
 		C *corruption `json:"corruption,omitempty"`
@@ -287,6 +287,34 @@ func init() {
 					return nil
 				}
 				what = fmt.Sprintf("array %s holds a second reference to the already referenced slab %s", host.VID, c.ID)
+			case "double-ref.same-parent":
+				// the container whose root register already holds the reference gets a second one, so that
+				// both references sit in the same parent slab (as long as the container stays a single slab)
+				var host *MCont
+				for _, r := range w2.Model.Roots() {
+					if !r.Volatile && r.VID == c.ID2 {
+						host = r
+						break
+					}
+				}
+				if host == nil {
+					return nil
+				}
+				h, v := w2.handle(host)
+				if v != nil {
+					return nil
+				}
+				switch x := h.(type) {
+				case *atree.Array:
+					if err := x.Append(RawRef(c.ID.SlabID())); err != nil {
+						return nil
+					}
+				case *atree.OrderedMap:
+					if _, err := x.Set(w2.cmp, w2.hip, U64(1<<62+c.ID.Index), RawRef(c.ID.SlabID())); err != nil {
+						return nil
+					}
+				}
+				what = fmt.Sprintf("container %s references the slab %s twice", host.VID, c.ID)
 			}
 			if c.Level == "api-committed" {
 				if err := w2.Storage.FastCommit(2); err != nil {
@@ -314,6 +342,25 @@ func init() {
 			return nil
 		}
 		return nil
+	}
+
+	// emptyOrphans: the history disposed of every container.  An empty storage is healthy with zero roots,
+	// and any register added to it is an unreferenced slab beyond the expected root count.
+	emptyOrphans := func(w *World, agg *Stats) (*Violation, *corruption) {
+		for k, raw := range [][]byte{versionBytes(3), versionBytes(1)} {
+			c := corruption{Kind: "orphan.empty", Level: "register", ID: RegID{1, uint64(1<<41 + k)}}
+			l := w.Ledger.Clone()
+			l.Regs[c.ID] = raw
+			st, err := freshLoaded(l)
+			agg.Inc("health.corruption.orphan.empty.register")
+			if err != nil {
+				continue
+			}
+			if _, err := atree.CheckStorageHealth(st, 0); err == nil {
+				return &Violation{Class: "health.missed.orphan.register", Msg: fmt.Sprintf("CheckStorageHealth accepts, with 0 expected roots, a storage to which the unreferenced register %s was added", c.ID)}, &c
+			}
+		}
+		return nil, nil
 	}
 
 	enumerate := func(w *World) []corruption {
@@ -351,6 +398,10 @@ func init() {
 			}
 			if par, ok := parentOf[id]; ok {
 				out = append(out, corruption{Kind: "cross-owner", Level: "register", ID: id, ID2: par})
+				if rootSet[par] {
+					out = append(out, corruption{Kind: "double-ref.same-parent", Level: "api", ID: id, ID2: par})
+					out = append(out, corruption{Kind: "double-ref.same-parent", Level: "api-committed", ID: id, ID2: par})
+				}
 			}
 		}
 		return out
@@ -383,6 +434,20 @@ func init() {
 				return res
 			}
 		}
+		if r.Sub("empty").Chance(0.12) {
+			// dispose of every container: the ledger ends empty (zero roots)
+			for _, c := range w.Model.Roots() {
+				st := Step{Op: "dispose", C: c.CID}
+				tr.Steps = append(tr.Steps, st)
+				w.StepNo = len(tr.Steps) - 1
+				if v := w.execGuarded(&st); v != nil {
+					res.Cut = v
+					res.Hash = traceHash(tr)
+					return res
+				}
+			}
+			agg.Inc("health.emptied-ledgers")
+		}
 		res.Hash = traceHash(tr)
 		res.Steps = len(tr.Steps)
 		w, v := buildWorld(tr)
@@ -404,6 +469,11 @@ func init() {
 		}
 		if v := positive(w, agg); v != nil {
 			return finish(v, nil)
+		}
+		if len(roots(w)) == 0 {
+			if v, c := emptyOrphans(w, agg); v != nil {
+				return finish(v, c)
+			}
 		}
 		cs := enumerate(w)
 		// every slab x every kind; the API-level ones rebuild the world, so large ledgers are sampled in quick
@@ -444,6 +514,10 @@ func init() {
 		}
 		if a.C == nil {
 			v = positive(w, agg)
+		} else if a.C.Kind == "orphan.empty" {
+			if len(roots(w)) == 0 {
+				v, _ = emptyOrphans(w, agg)
+			}
 		} else {
 			// the corruption names a slab: it must still exist in the (possibly shrunk) ledger
 			if _, ok := w.Ledger.Regs[a.C.ID]; !ok {
